@@ -9,20 +9,43 @@ import c11
 ID = "C14"
 GEN = ["Infra"]
 LEVEL = "proof"
-TECHNIQUE = ("Coq proof (reals): any sequence of dt/delay/batch-size assignments on a constructed component yields exactly the "
-             "component the constructor builds for the resulting configuration (history sizes through the generated record-size "
-             "expression), frame and getter lemmas, decay invariant of trace reducers; model tied to the code by translation of "
-             "the size expression and by a correspondence run; relational setter-vs-constructor oracle on the real classes")
-LEVEL_TEXT = ("Proof for the configuration model: setters_eq_ctor (all setter sequences, all values, any number of histories), "
-              "setter_frame, getters report the assigned values, trace-reducer decay always equals exp(-dt/tau); the pre-repair "
-              "delay setter is refuted by a witness. The model's history sizes use the record-size expression re-translated from "
-              "RecordTensor on every run and are compared (vm_compute, binary64) with the real synapses'/reducers' record sizes "
-              "after random setter sequences. The property's behavioural half (same outputs from a cleared state, replacement "
-              "synapse, inplace flag, 8 neurons / 4 synapses / 4 connections / 6 reducers) is decided on the implementation by "
-              "the relational oracle: setter path vs freshly constructed component, getters, internal history sizes, outputs.")
-LEVEL_NOTE = ("Trusted: Coq kernel + stdlib real axioms (reported); translator (record-size expression, 3 occurrences must agree); "
-              "hand-written model coq/C14/Config.v validated by correspondence; the relational harness tools/impl/c14_impl.py. "
-              "dtype via .to() is exercised on the implementation only (float32 vs float64 runs agree to 1e-4), not modelled.")
+TECHNIQUE = ("Coq proofs at five levels: (1) RecordTensor - any sequence of dt/duration/inclusive assignments on a reachable record "
+             "(on top of the C13 model of the setters) equals the constructor for the final configuration, as a state once reset; "
+             "(2) reducers with their record, decay, inplace flag, observations and clears; (3) connections forwarding to their "
+             "synapse, synapse replacement; (4) batch size - reconstrain of dimension 0 of batched ShapedTensors / histories, then "
+             "clear; (5) the size-only component model; all tied to the code by translation of the size expression and by "
+             "correspondence runs of every model function (vm_compute, binary64) against the real objects after random setter "
+             "sequences; relational setter-vs-constructor oracle on the real classes")
+LEVEL_TEXT = ("Proved (33 obligations). RecordTensor level (every number type, axiom-free): record_setters_eq_ctor[_from] - after ANY "
+              "sequence of dt / duration / inclusive assignments (refused values included) on a created or any reachable record, "
+              "initialised or not, the reported configuration is the last accepted one, the slot count is the generated size "
+              "expression, and the constructor called with that configuration succeeds and gives the same slots and constraints and, "
+              "after reset, the SAME STATE (hypothesis: no non-strict constraint aliases the record dimension - C13 no_alias0; "
+              "observation shape not (0,)). Batch size (axiom-free): nst_set_batch_ok / neuron_batch_clear_eq_ctor (ShapedTensor "
+              "state: edit of the dim-0 constraint via __make_compatible, then clear = constructor state for any sequence of "
+              "batch sizes), hist_set_batch_ok / hist_batch_clear_eq_ctor (a synapse history: align, edit of storage dim 1, then "
+              "reset = the constructor's history: shape (b, *shape), slots, constraint, zero contents). Over the reals: "
+              "syn_setters_clear_eq_ctor (synapse WITH contents: any dt / delay / batchsz / inplace sequence then clear = "
+              "constructor then clear), red_setters_clear_eq_ctor (reducer with record, decay, inplace, _initial: any sequence "
+              "of assignments, observations and clears then clear = constructor, exactly), red_reachable_consistent, "
+              "conn_forwards / conn_setters_clear_eq_ctor / conn_setters_clear_eq_own_ctor (assigning through the connection = "
+              "assigning on the synapse = constructing with that configuration; replacement synapse reported back), frames "
+              "(setter_frame, syn_setter_frame, red_setter_frame, conn_setter_frame), the size-only model (setters_eq_ctor, "
+              "tred_setters_ok). Refuted variants of the three repaired setters: old_delay_setter_refuted, "
+              "old_duration_setter_refuted (value stored in the step-time field, 0 refused), old_synapse_setter_refuted. "
+              "Every model function is evaluated by vm_compute and compared with the real objects (record sizes, pointers, "
+              "shapes, constraints, reported attributes, cleared contents) after random setter sequences. The behavioural half "
+              "(same OUTPUTS from a cleared state; 8 neurons / 4 synapses / 4 connections / 6 reducers / bare records) is decided "
+              "on the implementation by the relational oracle: setter path vs freshly constructed component.")
+LEVEL_NOTE = ("Trusted: Coq kernel + stdlib real axioms for the real-number theorems (reported; the RecordTensor and batch levels "
+              "are closed under the global context); translator (record-size expression, 3 occurrences must agree); the C13 models "
+              "C13/Shaped.v, C13/Resize.v and the C01 ring model (imported, proved about in C13/C01); hand-written models "
+              "coq/C14/{Config,RecordCfg,Batch,Reducer,Conn}.v validated by correspondence; the relational harness "
+              "tools/impl/c14_impl.py. NOT proved: equality of forward OUTPUTS after clear (follows from state equality only for "
+              "the state that is modelled: histories, batched tensors, reported attributes - parameters, adaptations and the "
+              "dynamics are not modelled; decided by the relational oracle); neurons' dt setters and dtype via .to() are exercised "
+              "on the implementation only; reducer forward is modelled as a push of an arbitrary folded observation; "
+              "Updatable.clear / layers are not modelled.")
 IMPL = os.path.join(F.VERIF, "tools", "impl", "c14_impl.py")
 HEADER = ("From Coq Require Import List ZArith Bool PrimFloat.\n"
           "From Inferno Require Import Base.Num Base.NumF C01.Ring C01.RingExec C13.Shaped C13.Resize C13.ResizeExec "
